@@ -85,7 +85,7 @@ def run_check():
         if oned:
             dirs, order = None, "1d"
         else:
-            dirs, order = gen.gen_dirs(rng, nd, order=rng.choice(["sorted", "sorted", "rotated", "reversed"]), exact=exact)
+            dirs, order = gen.gen_dirs(rng, nd, order=rng.choice(["sorted", "sorted", "rotated", "reversed", "seam"]), exact=exact)
         dtype = rng.choice(["float64", "float64", "float32"])
         extra = []
         nextra = rng.choice([0, 0, 1, 2])
